@@ -52,7 +52,7 @@ Qed.
 
 Lemma hnsw_get_slot_cases d i : blen d = PAGE_SIZE -> bytes_ok d = true -> 0 <= i < 65536 ->
   hnsw_get_slot d i = Ok None \/
-  exists off st sz, hnsw_get_slot d i = Ok (Some (off, st, sz)) /\ 0 <= off < 8192 /\ 0 <= sz < 65536.
+  exists off st sz, hnsw_get_slot d i = Ok (Some (off, st, sz)) /\ 0 <= off < 16384 /\ 0 <= sz < 65536.
 Proof.
   intros Hl Hb Hi. unfold hnsw_get_slot.
   destruct (hnsw_slot_count_ok d Hl Hb) as (sc & -> & Hsc). cbn [bind].
@@ -64,8 +64,8 @@ Proof.
   assert (Hs : bytes_ok b = true) by (apply bytes_ok_bslice; exact Hb).
   assert (Hsl : blen b = 4) by (unfold b; rewrite blen_bslice by (apply bslice_ok_true; lia); lia).
   unfold slot_decode. eexists _, _, _. split; [reflexivity|].
-  pose proof (le_bound b 2 2 Hs) as H2. change (256 ^ 2) with 65536 in H2.
-  split; [lia | apply H2; lia].
+  pose proof (le_bound b 2 2 Hs) as H2. pose proof (le_bound b 0 2 Hs) as H0. change (256 ^ 2) with 65536 in *.
+  split; [specialize (H0 ltac:(lia) ltac:(lia) ltac:(lia)); lia | apply H2; lia].
 Qed.
 
 Lemma hnsw_read_node_data_cases d i : blen d = PAGE_SIZE -> bytes_ok d = true -> 0 <= i < 65536 ->
